@@ -25,6 +25,7 @@ import io
 import itertools
 import os
 import re
+import signal
 import tempfile
 
 from lib import cmd, outcome, is_error, import_impl, Sym
@@ -85,13 +86,29 @@ def impl_write(G, g, ty, fmt):
     return out.getvalue()
 
 
-def impl_read(G, text, ty, fmt):
-    """('ok', canon) | ('exc', class name, message)"""
+class ReaderTimeout(BaseException):
+    pass
+
+
+def _on_alarm(signum, frame):
+    raise ReaderTimeout()
+
+
+def impl_read(G, text, ty, fmt, limit=60):
+    """('ok', canon) | ('exc', class name, message); a reader that does not return within `limit` seconds is
+    reported as the exception class 'Timeout' (a failing input of its own) instead of hanging the check"""
+    old = signal.signal(signal.SIGALRM, _on_alarm)
+    signal.alarm(limit)
     try:
         g = G.readGraph(io.StringIO(text), ty, fmt)
+        return ('ok', canon(g))
+    except ReaderTimeout:
+        return ('exc', 'Timeout', 'readGraph did not return within %d s' % limit)
     except Exception as e:  # noqa
         return ('exc', type(e).__name__, str(e)[:160])
-    return ('ok', canon(g))
+    finally:
+        signal.alarm(0)
+        signal.signal(signal.SIGALRM, old)
 
 
 def model_outcome(rep):
@@ -366,17 +383,18 @@ def mutate(rng, text, fmt, n_hint):
         return kind, '\n'.join(out)
     elif kind == 'big-number':
         # a vertex number (or the declared size) far beyond the graph; sizes stay small enough to be allocated
-        i = pick_line(lambda l: not l.startswith('c'))
-        if i is None:
+        # (the readers allocate / loop over the declared size: "p edge 10**12 0" needs terabytes and the matrix
+        #  "10**18 0" loops for ever; such sizes are a resource question, not a parse question, and are not generated)
+        i = pick_line(lambda l: not l.startswith('c') and not l.startswith('#'))
+        if i is None or (fmt == 'matrix' and body and i == body[0]):
             return kind, text
         t = lines[i].split(' ')
         nums = [k for k, x in enumerate(t) if x.isdigit()]
         if nums:
             k = rng.choice(nums)
-            is_size = (fmt == 'kthlist' and ':' not in lines[i]) or (fmt == 'dimacs' and lines[i].startswith('p')) or \
-                      (fmt == 'matrix' and i == body[0])
+            is_size = (fmt == 'kthlist' and ':' not in lines[i]) or (fmt == 'dimacs' and lines[i].startswith('p') and k == 2)
             big = rng.choice([10 ** 18 + 7, 2 ** 64, 10 ** 30, 123456789012345678901234567890])
-            t[k] = str(rng.choice([20000, 65536, 99999]) if is_size and not (fmt == 'matrix' and n_hint > 0) else big)
+            t[k] = str(rng.choice([20000, 65536, 99999]) if is_size else big)
         lines[i] = ' '.join(t)
     elif kind == 'dup-edge':
         # the same edge twice (dimacs: the edge count is adjusted half of the time; kthlist: a neighbour repeated in a row)
@@ -786,6 +804,7 @@ def gen_labels(rng, fmt, k):
             labs.sort()
         return mode, labs
     mode = rng.choice(['ints', 'ints', 'ints-wide', 'leading-zero', 'alpha', 'mixed', 'float', 'quoted'])
+    k = min(k, {'quoted': 9, 'leading-zero': 14}.get(mode, 15))     # size of the smallest pool below
     if mode == 'ints':
         labs = [str(x) for x in rng.sample(range(0, 30), k)]
     elif mode == 'ints-wide':
@@ -812,10 +831,8 @@ def gen_labels(rng, fmt, k):
 
 def label_file(rng, ty, fmt):
     """a hand-written dot / gml file; returns (mix, text)"""
-    k = rng.randint(1, 9) if rng.random() < 0.7 else rng.randint(10, 14)
-    if fmt == 'dot':
-        k = min(k, 9) if rng.random() < 0.5 else k
-    mode, labs = gen_labels(rng, fmt, min(k, 9) if fmt == 'dot' and k > 9 and rng.random() < 0.3 else k)
+    k = rng.randint(1, 9) if rng.random() < 0.6 else rng.randint(10, 14)
+    mode, labs = gen_labels(rng, fmt, k)
     k = len(labs)
     directed = ty in ('digraph', 'dag')
     if ty == 'bipartite':
